@@ -36,8 +36,12 @@ def gen(rng, spec):
         return search.gen_case(rng, beam=True, max_n=5 if nb > 1 else 6, nbest=nb, sparse=nb > 1)
     if r < 0.72:
         return search.gen_case(rng, max_n=5, many_cats=True, nbest=rng.choice((1, 1, 2)))
-    if r < 0.7:
+    if r < 0.76:
         return search.gen_case(rng, max_n=1)
+    if r < 0.79:
+        case = search.gen_case(rng, max_n=4, nbest=rng.choice((1, 2)), sparse=True)
+        case['config']['pruning_size'] = 0          # an empty beam admits no supertag at all: only the placeholder can come back
+        return case
     return search.gen_case(rng, max_n=6)
 
 
